@@ -42,6 +42,12 @@ def shape(rng, d, ctx):
         elif r < 0.93 and (ctx['tryb'] or ctx['flavor'] == 'defeat'):
             out.append(rng.choice(['!is_defeat();', 'preempt { %s }' % shape(rng, d - 1, ctx), '!truth_is_defeat(x > 5);']))
         elif r < 0.96: out.append(rng.choice(['all_is_win();', 'all_is_broken();']))
+        elif r < 0.985:
+            # user functions that share a *name* with a terminal / defeat builtin but not its flavour: ordinary calls that return
+            c = ['is_defeat();', 'truth_is_defeat(x > 0);']
+            if ctx['flavor'] == 'you' and not ctx['tryb']: c += ['@all_is_win();', '@all_is_broken();', '@is_defeat();', '@truth_is_defeat(true);']
+            if ctx['tryb'] or ctx['flavor'] == 'defeat': c += ['!all_is_win();', '!all_is_broken();']
+            out.append(rng.choice(c))
         else: out.append('{ %s }' % shape(rng, d - 1, ctx))
     return ' '.join(out)
 
@@ -52,7 +58,10 @@ def program(rng):
     name = {'ordinary': 'f', 'you': '@f', 'defeat': '!f'}[fl]
     body = shape(rng, 3, dict(flavor=fl, loop=False, tryb=False, ret=ret))
     call = {'ordinary': 'f(2);', 'you': '@f(2);', 'defeat': 'try { !f(2); } undo { write("u"); }'}[fl]
-    return '%s %s(int x) { %s }\nempty @is_you() { %s write("end"); }' % ('int' if ret else 'empty', name, body, call)
+    look = ('empty @all_is_win() { write(\'w\'); }\nempty !all_is_win() { write(\'W\'); }\nempty @all_is_broken() { write(\'b\'); }\n'
+            'empty !all_is_broken() { write(\'B\'); }\nempty is_defeat() { write(\'d\'); }\nempty @is_defeat() { write(\'D\'); }\n'
+            'empty truth_is_defeat(bool t) { write(t); }\nempty @truth_is_defeat(bool t) { write(t); }\n')
+    return look + '%s %s(int x) { %s }\nempty @is_you() { %s write("end"); }' % ('int' if ret else 'empty', name, body, call)
 
 
 def run(ctx):
